@@ -151,6 +151,17 @@ func parsePSISection(i *astikit.BytesIterator) (s *PSISection, stop bool, err er
 			return
 		}
 
+		// What has been parsed must be inside the section: a section length that stops short of the fields of the
+		// table, or in the middle of a loop, isn't the length of this section
+		offsetDataEnd := offsetEnd
+		if s.Header.TableID.hasCRC32() {
+			offsetDataEnd = offsetSectionsEnd
+		}
+		if i.Offset() > offsetDataEnd {
+			err = fmt.Errorf("astits: section data ends at offset %d, after the %d the section length allows", i.Offset(), offsetDataEnd)
+			return
+		}
+
 		// Process CRC32
 		if s.Header.TableID.hasCRC32() {
 			// Seek to the end of the sections
